@@ -67,7 +67,7 @@ CLAIMS.update({
                 note=RULE_NOTE + " shellquote.Split is modelled as blank-splitting (lines without quotes or backslashes: the property's domain); os.Stat and the user database are oracles (stat is a parameter of the theorem).", technique="Coq proof of the whole text round trip on the model (all rules, both print forms) + correspondence of every modelled stage + round-trip run on the implementation", design="6 C07"),
     "C13": dict(text="Proof: C13_decode_total (for every byte slice the decoder model, with every slice expression, array index and allocation explicit, never panics), C13_success_valid (success implies field count <= 64 and the buffer inside the slice, so allocations are bounded by 64 whatever the input claims), C13_mask_total (every syscall number is set or rejected). "
                      "The harness replaces each header word of valid rules by boundary values, truncates, and feeds extreme Rule values and arbitrary lines; panics and allocations above 64 MiB are violations. Three panics of the pinned tree were repaired.",
-                note=RULE_NOTE + " PARTIAL: Build's value parsers, shellquote and flag internals are exercised, not modelled, for panics.", technique="Coq totality proof of the decoder/mask model + boundary-value correspondence", design="6 C13"),
+                note=RULE_NOTE + " PARTIAL: Build's value parsers, ToCommandLine and Build-from-text are now total Gallina models tied per case (Model/RuleValue.v, RuleText.v, RuleBuild.v: a model cannot panic, so a panic of the implementation is a disagreement); shellquote and the flag package internals are exercised, not modelled, for panics.", technique="Coq totality proof of the decoder/mask model + boundary-value correspondence", design="6 C13"),
     "C14": dict(text="Proof: C14_tokens_read_as_items (for every line of flags with arbitrary values the flag package's reading equals the item-by-item reading: nothing skipped), C14_stray_rejected, C14_filter_complete / C14_compare_complete (field, operator, value are the complete text around the operator), C14_exclusive, C14_patterns_pinned (the modelled patterns are the compiled ones). "
                      "Every generated line's returned rule is compared with both readings. Stray-word, unanchored-pattern and repeated-flag defects of the pinned tree were repaired.",
                 note=RULE_NOTE + " shellquote.Split stays outside the model (checked per case).", technique="Coq refinement proof (token reading = declarative reading) + scanner soundness + correspondence", design="6 C14"),
